@@ -34,6 +34,15 @@ def run(res, args):
                 failed.append(info)
         return bool(failed), {'failed_probes': failed}, {'site': 'Color::from_str', 'probe': failed[0]['keyword'] if failed else None}
     O.merge(res, O.c19_color(fns, consts), res.coverage, replay, 'color')
+
+    def replay_pal(ob, d):
+        failed = []
+        for r in ob.get('bad_roles') or []:
+            rep, info = O.replay_palette_role(r, d)
+            if rep:
+                failed.append(dict(info, role=r))
+        return bool(failed), {'failed_probes': failed}, {'site': 'palette role table', 'role': failed[0]['role'] if failed else None}
+    O.merge(res, O.c19_palette_roles(fns, consts), res.coverage, replay_pal, 'palette')
     res.assumptions += [
         'Outside the claim: HashMap lookup + to_ascii_lowercase of the keyword path and unknown-name rejection as executed code (Kani ICE on hashbrown; decided only structurally on the MIR), alpha=255 for opaque colours (impl From<Color> for Gadget, HashMap::from)',
         "Qt's rule for the four listed hex forms is the independently written qt_hex() oracle in harness/color.rs",
